@@ -137,7 +137,7 @@ Lemma pq_pzero : p_quad pzero = [].
 Proof. reflexivity. Qed.
 
 Local Opaque merge padd psub pneg scale add_offset pmul_linear pmul_linear_tab unexpected_pair real_interaction
-  Qcplus Qcmult Qcopp Qcinv Qcminus Qcdiv qc qpow qis0 pzero gen_upd_err upd_err mul_err.
+  Qcplus Qcmult Qcopp Qcinv Qcminus Qcdiv qc qpow qis0 pzero gen_upd_err upd_err mul_err gen_mul_err.
 
 Ltac split_ifs :=
   repeat match goal with
